@@ -7,6 +7,7 @@ from harness.common import facts as F
 from harness.common import build
 from . import facts18
 from . import translate
+from . import translate_args
 
 ID = 'C18'
 HERE = os.path.dirname(os.path.abspath(__file__))
@@ -18,7 +19,8 @@ RULE = ('sorter cases: sequences of <=10 add/remove calls on a TopologicalSorter
         'configurator cases: add_tween HISTORIES (adds/re-adds interleaved with implicit() and requests through freshly '
         'made apps, with/without pyramid.tweens, autocommit or commit after each add), add_view_deriver, and '
         'add_view/route/subscriber_predicate with weighs_more_than/weighs_less_than hints, with a real request through '
-        'instrumented tweens/derivers/predicates. non-trivial = some observed step is an error '
+        'instrumented tweens/derivers/predicates; re-registrations hand over the VERY SAME object in part of the cases and '
+        'a third of all cases pass every name/hint as an equal-but-not-identical str object. non-trivial = some observed step is an error '
         'or an order of >=2 names with at least one constraint between present names; distinct by full case')
 ASSUMPTIONS = [
     'names and constraint targets are str; the Sentinel objects FIRST/LAST are compared by identity (no __eq__) and are '
@@ -32,29 +34,39 @@ TRUSTED = [
     'mechanically, anything outside subset/table is a broken tie, never a guess',
     'hand-written REFERENCE model coq/Model/C18_base.v + C18.v: for remove/add/sorted, Tweens.add_explicit/add_implicit/'
     'implicit/__call__ and _apply_view_derivers it is no longer trusted (proved equal to the regenerated program); still '
-    'trusted and shape-pinned: add_view_deriver argument processing, _add_tween checks, the predicate directives, '
-    'add_default_* lists, PredicateList.add/make, Router.__init__, is_nonstr_iter, as_sorted_tuple',
+    'trusted and shape-pinned: the predicate directives, add_default_* lists, PredicateList.add/make, Router.__init__, '
+    'is_nonstr_iter, is_string_or_iterable, as_sorted_tuple; the argument processing of add_view_deriver / _add_tween / '
+    'add_tween is regenerated (translate_args.py) and proved equal to the model, its skipped plumbing statements are '
+    'hashed (masked pins)',
+    'directive translator harness/c18/translate_args.py: its table (identity test on a bare hint = equality with the '
+    'interned constant; `C in hint` only under an is_nonstr_iter guard; names are str and never None; the action runs the '
+    'register() closure)',
     'Python str ordering (as_sorted_tuple) modelled as code-point lexicographic order',
     'Router.__init__ / make_wsgi_app / view lookup are exercised, not modelled (only the enter/exit log is compared)',
 ]
 TECHNIQUE = ('Coq proof about a Gallina program whose control flow is TRANSLATED from the Python source on every run '
              '(harness/c18/translate.py -> Gen/Facts_C18.v: gen_remove, gen_add, gen_sorted with its closures and its fuelled '
-             'while loop, gen_tw_*, gen_apply_view_derivers), proved equal to the hand-written reference model (Proofs/C18_gen.v); '
+             'while loop, gen_tw_*, gen_apply_view_derivers; harness/c18/translate_args.py: gen_deriver_args, gen_add_tween, '
+             'gen_add_tween_directive), proved equal to the hand-written reference model (Proofs/C18_gen.v, C18_args.v); '
              'loop invariant of the Kahn-style emission loop, representation invariant of add/remove, pigeonhole for cycles; '
              'extracted-model differential correspondence; the declarative judge defined in Coq is run on the '
-             'implementation\'s answers')
+             'implementation\'s answers; the wire-level judges are proved to accept every wire answer of the model (C18_wire.v)')
 LEVEL_TEXT = ('Machine-checked theorems about the program regenerated from src/pyramid/util.py, config/tweens.py and '
               'config/views.py on this run: for every constructor flavour and every add/remove sequence each answer of sorted() is '
               'accepted by the declarative judge (every declared name once with its latest value, every constraint between present '
               'names respected, Unsatisfied/Cyclic errors exactly when justified; C18_gen_model_judged), sorted() never fails '
               'internally, tweens and view derivers nest in list order with an explicit tween list winning; plus, on the reference '
               'model, cycle_iff_error in both directions, tween histories, predicate directives, the default deriver order '
-              '(secured_view first) and, after any add_view_deriver calls, every deriver outside mapped_view (user callable innermost). Ties: generated = model theorems (no shape pins on the translated functions), regenerated '
-              'constants, 22 shape pins on the untranslated functions, differential run with the Coq judge on the implementation.')
+              '(secured_view first) and, after any add_view_deriver calls, every deriver outside mapped_view (user callable innermost); the regenerated argument processing of add_view_deriver / _add_tween equals the model and '
+              'feeds the judged scenarios end to end (C18_gen_derivers_scenario_judged, C18_gen_tweens_history_add); the executable wire '
+              'judges accept every answer of the model (C18_wire_*_judged). Ties: generated = model theorems (no shape pins on the translated functions), regenerated '
+              'constants, 36 shape pins + 2 masked pins on the untranslated functions / statements, a structural fact on setup_registry, '
+              'differential run with the Coq judge on the implementation.')
 LEVEL_NOTE = ('Trusted: Coq kernel; the translator\'s primitive table (leaf claims about dict/list/set methods, the graph entry '
               'representation, the unchecked list.remove on order/req_* which is unreachable by C18_rep_reachable, the fuel = '
               'len(graph) of the while loop whose exhaustion is proved impossible); the hand-written model of the untranslated '
-              'functions (pinned); Python harness. The wire-level scenario judges are proved at Prop level only.')
+              'functions (pinned); the directive translator\'s table; Python harness. The wire-level judges are proved over decoded cases '
+              '(the outermost run_C18 dispatch is not covered).')
 ALLOWED_AXIOMS = ()
 PROOF_TIMEOUT = 1500
 
@@ -78,6 +90,10 @@ def facts(src):
     gen, tproblems, tsummary = translate.translate_tree(src)
     problems += tproblems
     summary.update(tsummary)
+    gen2, aproblems, asummary = translate_args.translate_tree(src)      # directive argument processing
+    problems += aproblems
+    summary.update(asummary)
+    gen = gen + '\n' + gen2
     return {'coq': facts18.emit(vals, gen), 'summary': summary, 'problems': problems}
 
 
@@ -103,6 +119,13 @@ def gen_hint(rng, pool, before_of=None, empty_ok=True):
     if empty_ok and rng.random() < 0.04:
         k = 0
     return [rng.choice(pool) for _ in range(k)]
+
+
+def _with_copies(rng, case):
+    """a third of the cases hand over every name / hint as an equal-but-not-identical str object"""
+    if rng.random() < 0.34:
+        case['copies'] = 1
+    return case
 
 
 def gen_sorter(rng):
@@ -172,7 +195,7 @@ def gen_sorter(rng):
         ops.append(['add', name, rng.randrange(1, 5), hint(name, True, oa), hint(name, False, oa)])
         if name not in added:
             added.append(name)
-    return {'k': 'sorter', 'cfg': cfg, 'ops': ops[:12]}
+    return _with_copies(rng, {'k': 'sorter', 'cfg': cfg, 'ops': ops[:12]})
 
 
 def gen_perms(rng, maxn):
@@ -234,7 +257,7 @@ def gen_tweens(rng):
             elif q < 0.9:
                 events.append(['request'])
     events.append(['request'] if rng.random() < 0.8 else ['implicit'])
-    return {'k': 'tweens', 'explicit': explicit, 'autocommit': rng.random() < 0.7, 'events': events}
+    return _with_copies(rng, {'k': 'tweens', 'explicit': explicit, 'autocommit': rng.random() < 0.7, 'events': events})
 
 
 PRED_KINDS = ['view', 'route', 'subscriber']
@@ -254,8 +277,8 @@ def gen_preds(rng):
     pos = {x: i for i, x in enumerate(chosen)}
     order = chosen[:]
     rng.shuffle(order)
-    if rng.random() < 0.2:
-        order.append(rng.choice(chosen))                   # re-add
+    if rng.random() < 0.3:
+        order.append(rng.choice(chosen))                   # re-add (half of them hand over the very same object)
     if builtin and rng.random() < 0.1:
         order.insert(rng.randrange(len(order) + 1), rng.choice(['xhr', 'header']))   # replace a built-in predicate
     p_abs = rng.choice([0.0, 0.05, 0.15])
@@ -286,7 +309,9 @@ def gen_preds(rng):
                 return target(after)
             return [target(after) for _ in range(rng.choice([1, 2, 3]))]
         adds.append([name, hint(True), hint(False)])
-    return {'k': 'preds', 'kind': kind, 'adds': adds}
+        if any(a[0] == name for a in adds[:-1]) and rng.random() < 0.5:
+            adds[-1].append(1)                             # the same predicate object again, other hints
+    return _with_copies(rng, {'k': 'preds', 'kind': kind, 'adds': adds})
 
 
 DV_DEFAULT = ['secured_view', 'csrf_view', 'owrapped_view', 'http_cached_view', 'decorated_view', 'rendered_view',
@@ -315,6 +340,8 @@ def gen_derivers(rng):
     for _ in range(k):
         r = rng.random()
         name = rng.choice(DV_USER) if r < 0.78 else (rng.choice(DV_DEFAULT) if r < 0.96 else rng.choice(['INGRESS', 'VIEW']))
+        if adds and rng.random() < 0.2:
+            name = rng.choice(adds)[0]                     # re-register an earlier name (re-positioning a deriver)
 
         def hint(after):
             r = rng.random()
@@ -339,7 +366,9 @@ def gen_derivers(rng):
             adds.append([name, listify(u), listify(o)])
         else:
             adds.append([name, hint(True), hint(False)])
-    return {'k': 'derivers', 'adds': adds}
+        if any(a[0] == name for a in adds[:-1]) and rng.random() < 0.5:
+            adds[-1].append(1)                             # the very same deriver object again, other hints
+    return _with_copies(rng, {'k': 'derivers', 'adds': adds})
 
 
 def generate(rng, tier, n):
@@ -412,15 +441,16 @@ def valid(case):
             if case['kind'] not in (0, 1, 2):
                 return False
             for a in case['adds']:
-                if len(a) != 3 or a[0] not in PRED_USER + ['xhr', 'header'] or not (_hint_ok(a[1]) and _hint_ok(a[2])):
+                if len(a) not in (3, 4) or a[0] not in PRED_USER + ['xhr', 'header'] \
+                        or not (_hint_ok(a[1]) and _hint_ok(a[2])) or (len(a) == 4 and a[3] != 1):
                     return False
                 if case['kind'] == 2 and a[0] in ('xhr', 'header'):
                     return False
             return bool(case['adds'])
         if k == 'derivers':
             for a in case['adds']:
-                if len(a) != 3 or a[0] not in DV_USER + DV_DEFAULT + ['INGRESS', 'VIEW'] \
-                        or not (_hint_ok(a[1]) and _hint_ok(a[2])):
+                if len(a) not in (3, 4) or a[0] not in DV_USER + DV_DEFAULT + ['INGRESS', 'VIEW'] \
+                        or not (_hint_ok(a[1]) and _hint_ok(a[2])) or (len(a) == 4 and a[3] != 1):
                     return False
             return True
         return False
@@ -467,8 +497,19 @@ def _events_wire(case):
     return out
 
 
+def _add_ids(case):
+    """opaque id of the object registered by each add: i+1, or -- when the add carries the optional 4th element 1 --
+    the id of the latest earlier add under the same name (the harness then hands over the VERY SAME object again)"""
+    ids, last = [], {}
+    for i, a in enumerate(case['adds']):
+        ident = last[a[0]] if (len(a) > 3 and a[3] and a[0] in last) else i + 1
+        last[a[0]] = ident
+        ids.append(ident)
+    return ids
+
+
 def _adds_wire(case):
-    return [[a[0], i + 1, _hw(a[1]), _hw(a[2])] for i, a in enumerate(case['adds'])]
+    return [[a[0], ident, _hw(a[1]), _hw(a[2])] for a, ident in zip(case['adds'], _add_ids(case))]
 
 
 def to_wire(case):
@@ -531,13 +572,19 @@ def setup(tier):
                  Request=Request, Response=Response, tw=tw)
 
 
-def _to_obj(t):
+def _to_obj(t, fresh=False):
     if t == FIRST_T:
         return _impl['FIRST']
     if t == LAST_T:
         return _impl['LAST']
     # add_tween tests "over is INGRESS" / "under is MAIN" by identity: hand over the interned constants, as a caller
     # using pyramid.tweens.MAIN / INGRESS does (cases arrive unpickled, i.e. not interned, in the worker pool)
+    if fresh and len(t) > 1:
+        # an EQUAL BUT NOT IDENTICAL str object (a hint read from a settings file): everything except the two bare-hint
+        # identity tests of _add_tween compares names with == / `in`, so the answers must not change
+        c = ''.join([t[:1], t[1:]])
+        assert c == t and c is not sys.intern(t)
+        return c
     return sys.intern(t)
 
 
@@ -549,12 +596,13 @@ def _from_obj(o):
     return o
 
 
-def _hint_obj(h, tup=False):
+def _hint_obj(h, tup=False, fresh=False, bare_const=()):
+    """fresh: equal-but-not-identical copies of every name (bare hints listed in bare_const stay the constants)"""
     if h is None:
         return None
     if isinstance(h, str):
-        return _to_obj(h)
-    l = [_to_obj(x) for x in h]
+        return _to_obj(h, fresh and h not in bare_const)
+    l = [_to_obj(x, fresh) for x in h]
     return tuple(l) if tup else l
 
 
@@ -587,16 +635,18 @@ def _new_sorter(cfg):
 def run_sorter(case):
     s = _new_sorter(case['cfg'])
     out = []
+    fr = bool(case.get('copies'))
     for i, op in enumerate(case['ops']):
         if op[0] == 'add':
             try:
-                s.add(op[1], op[2], after=_hint_obj(op[3], tup=(i % 2 == 1)), before=_hint_obj(op[4], tup=(i % 2 == 1)))
+                s.add(_to_obj(op[1], fr), op[2], after=_hint_obj(op[3], tup=(i % 2 == 1), fresh=fr),
+                      before=_hint_obj(op[4], tup=(i % 2 == 1), fresh=fr))
             except Exception as e:
                 out.append(['EXC', type(e).__name__])
                 continue
         else:
             try:
-                s.remove(op[1])
+                s.remove(_to_obj(op[1], fr))
             except ValueError:
                 out.append([5])
                 continue
@@ -636,6 +686,7 @@ def run_tweens(case):
     tw = _impl['tw']
     tw.reset()
     auto = case.get('autocommit', True)
+    fr = bool(case.get('copies'))
     settings = {'pyramid.tweens': ' '.join(case['explicit'])} if case['explicit'] else {}
     config = C(settings=settings, autocommit=auto)
     config.add_view(_view)
@@ -648,7 +699,8 @@ def run_tweens(case):
                 if name in TW:
                     tw.rebind(name, fid)
                 try:
-                    config.add_tween(name, under=_hint_obj(under), over=_hint_obj(over))
+                    config.add_tween(_to_obj(name, fr), under=_hint_obj(under, fresh=fr, bare_const=('MAIN', 'INGRESS')),
+                                     over=_hint_obj(over, fresh=fr, bare_const=('MAIN', 'INGRESS')))
                     if not auto:
                         config.commit()
                     out.append(0)
@@ -683,9 +735,13 @@ def run_preds(case):
     tw = _impl['tw']
     config = _impl['Configurator'](autocommit=True)
     ident = lambda f: getattr(f, '_c18_id', 0)
-    for i, (name, more, less) in enumerate(case['adds']):
-        getattr(config, 'add_%s_predicate' % kind)(name, tw.mk_pred(name, i + 1),
-                                                    weighs_more_than=_hint_obj(more), weighs_less_than=_hint_obj(less))
+    objs = tw.ObjCache(tw.mk_pred)
+    fr = bool(case.get('copies'))
+    for a, oid in zip(case['adds'], _add_ids(case)):
+        name, more, less = a[:3]
+        getattr(config, 'add_%s_predicate' % kind)(_to_obj(name, fr), objs.get(name, oid),
+                                                    weighs_more_than=_hint_obj(more, fresh=fr),
+                                                    weighs_less_than=_hint_obj(less, fresh=fr))
     predlist = config.get_predlist(kind)
     o = _observe_sorted(predlist.sorter.sorted, ident)
     ev = []
@@ -717,9 +773,13 @@ def run_derivers(case):
     config = _impl['Configurator'](autocommit=True)
     tw = _impl['tw']
     codes = []
-    for i, (name, under, over) in enumerate(case['adds']):
+    objs = tw.ObjCache(tw.mk_deriver)
+    fr = bool(case.get('copies'))
+    for a, oid in zip(case['adds'], _add_ids(case)):
+        name, under, over = a[:3]
         try:
-            config.add_view_deriver(tw.mk_deriver(name, i + 1), name=name, under=_hint_obj(under), over=_hint_obj(over))
+            config.add_view_deriver(objs.get(name, oid), name=_to_obj(name, fr), under=_hint_obj(under, fresh=fr),
+                                    over=_hint_obj(over, fresh=fr))
             codes.append(0)
         except _impl['CE'] as e:
             codes.append(_code(e, ((1, 'reserved view deriver name'), (2, 'cannot be over INGRESS'),
@@ -878,14 +938,18 @@ def _tw_kinds(case, obs, names):
     out.append('tweens-autocommit' if case.get('autocommit', True) else 'tweens-commit-after-each-add')
     out.append('tweens-adds%d' % sum(1 for e in evs if e[0] == 'add'))
     seen_names, looked, readd_after_look, changed_factory = {}, False, False, False
+    hints, same_obj_other_hints = {}, False
     for e, o in zip(evs, obs if isinstance(obs, list) else []):
         if e[0] == 'add':
             out.append('tweens-add-code-%s' % (o if isinstance(o, int) else 'exc'))
             if o == 0:
+                if e[1] in seen_names and seen_names[e[1]] == e[2] and hints.get(e[1]) != [e[3], e[4]]:
+                    same_obj_other_hints = True
                 if e[1] in seen_names and looked:
                     readd_after_look = True
                     if seen_names[e[1]] != e[2]:
                         changed_factory = True
+                hints[e[1]] = [e[3], e[4]]
                 seen_names[e[1]] = e[2]
         else:
             looked = True
@@ -900,12 +964,16 @@ def _tw_kinds(case, obs, names):
         out.append('tweens-readd-after-look')
     if changed_factory:
         out.append('tweens-readd-new-factory-after-look')
+    if same_obj_other_hints:
+        out.append('tweens-readd-same-object-other-hints')
     return sorted(set(out))
 
 
 def kinds(case, obs):
     k = case['k']
     out = [k]
+    if case.get('copies'):
+        out.append(k + '-names-as-nonidentical-copies')
     names = {0: 'ok', 1: 'unsat-before', 2: 'unsat-after', 3: 'cyclic', 4: 'internal', 5: 'valueerror'}
     if k == 'sorter':
         out.append('cfg%d' % case['cfg'])
@@ -945,6 +1013,8 @@ def kinds(case, obs):
                 out.append('preds-%s-evaluated>=2' % kind)
         if any(a[1] is not None or a[2] is not None for a in case['adds']):
             out.append('preds-%s-hinted' % kind)
+        if len(set(_add_ids(case))) < len(case['adds']):
+            out.append('preds-readd-same-object')
     else:
         codes, fin = obs if (isinstance(obs, list) and len(obs) == 2) else ([], ['?'])
         out.append('%s-adds%d' % (k, len(case['adds'])))
@@ -957,6 +1027,8 @@ def kinds(case, obs):
                 out.append('derivers-stock-replaced')
             if any(a[0] == 'mapped_view' for a in case['adds']):
                 out.append('derivers-mapped_view-replaced')
+            if len(set(_add_ids(case))) < len(case['adds']):
+                out.append('derivers-readd-same-object')
         for c in codes:
             out.append('%s-add-code-%s' % (k, c if isinstance(c, int) else 'exc'))
         if isinstance(fin, list) and fin:
